@@ -174,7 +174,9 @@ Dom_apply(f, a) ==
   \* numeric data only; a 1-D function needs non-empty input and output
   /\ \A i \in 1..Len(f.vars) :
        (\E d \in FuncDims(a) : VarHasDim(f.vars[i], d)) =>
-          /\ f.vars[i].enc = "num" /\ NoDup(f.vars[i].dims)
+          \* (a variable may use a named dimension twice, e.g. an averaging kernel
+          \* AK(time, level, level): the function then runs along both axes)
+          /\ f.vars[i].enc = "num"
           /\ ((\E j \in 1..Len(a.funcs) : a.funcs[j].kind = "callable") => ProdSeq(f.vars[i].shape) >= 1)
   /\ \A i \in 1..Len(a.funcs) :
        a.funcs[i].kind = "callable" => Fun1dLen(a.funcs[i].f, DimLen(f, a.funcs[i].d)) >= 1
